@@ -145,7 +145,14 @@ def extract():
     for c in _classes(diag):
         if c.name in ("Diagonal", "ScaledIdentity", "Identity"):
             bases.append((c.name, ",".join(ast.unparse(b) for b in c.bases)))
-    return {"flags": flags, "defaults": defaults, "dispatch": dispatch, "bases": bases}
+    # transcribed helpers: the return expression of `numpy/util.py::no_nan_divide` (model `noNanDiv`: EXACT-zero test of the denominator)
+    helpers = []
+    util = _parse("scico/numpy/util.py")
+    for node in util.body:
+        if isinstance(node, ast.FunctionDef) and node.name == "no_nan_divide":
+            body = [st for st in node.body if not (isinstance(st, ast.Expr) and isinstance(st.value, ast.Constant))]
+            helpers.append(("no_nan_divide", " ; ".join(ast.unparse(st) for st in body)))
+    return {"flags": flags, "defaults": defaults, "dispatch": dispatch, "bases": bases, "helpers": helpers}
 
 
 def _s(x):
@@ -181,6 +188,12 @@ def dispatch : List (String × String × List String) := {_list(t['dispatch'])}
 
 /-- (class of linop/_diag.py, bases) -/
 def bases : List (String × String) := {_list(t['bases'])}
+
+/-- (helper, statements of its body) -/
+def helpers : List (String × String) := {_list(t['helpers'])}
+
+/-- `no_nan_divide` is the transcribed one: `where(y != 0, x / where(y != 0, y, 1), 0)` — an EXACT-zero test (model `noNanDiv`) -/
+theorem helpers_ok : checkHelpers helpers = true := by decide
 
 /-- the classes and their advertised flags are the ones the model knows: every class that advertises a prox is either modelled
     (C02 theorem) or on the list of documented approximations / wrappers of other engines -/
